@@ -34,6 +34,7 @@ def lowerE : Expr → GExpr
   | .pipe a f => .pipe (lowerE a) (lowerE f)
   | .hof h f args => .hof h (lowerE f) (lowerL args)
   | .matchE t arms => .callVal (.funcLit [] (.mk [] (.switch (lowerE t) (lowerArms arms)))) []
+  | .matchSE t arms => .callVal (.funcLit [] (.mk [] (.switchS (lowerE t) (lowerSArms arms)))) []
 def lowerL : List Expr → List GExpr
   | [] => []
   | e :: es => lowerE e :: lowerL es
@@ -42,6 +43,7 @@ def lowerB : Body → GBody
 def lowerT : Tail → GTail
   | .ret e => .ret (lowerE e)
   | .matchT t arms => .switch (lowerE t) (lowerArms arms)
+  | .matchST t arms => .switchS (lowerE t) (lowerSArms arms)
 def lowerSs : List Stmt → List GStmt
   | [] => []
   | s :: ss => lowerS s :: lowerSs ss
@@ -53,6 +55,9 @@ def lowerS : Stmt → GStmt
 def lowerArms : List Arm → List GCase
   | [] => []
   | .mk c bind b :: rest => .mk c bind (lowerB b) :: lowerArms rest
+def lowerSArms : List SArm → List GSCase
+  | [] => []
+  | .mk p b :: rest => .mk p (lowerB b) :: lowerSArms rest
 end
 
 def lowerFun (d : FunDef) : GFunDef := { name := d.name, params := d.params, body := lowerB d.body }
